@@ -1,8 +1,11 @@
 package twig
 
 import (
+	"fmt"
 	"io"
+	"reflect"
 	"strconv"
+	"strings"
 )
 
 // countNewlines counts newlines in a string without allocations.
@@ -70,4 +73,81 @@ func FormatInt(i int) string {
 
 	// Fall back to standard formatting
 	return strconv.Itoa(i)
+}
+
+// stableString formats a value of any type like fmt's %v does, except that it
+// never prints a memory address: pointers are followed, and functions, channels
+// and unsafe pointers are shown by their type. Rendering the same data twice,
+// or in another process, therefore gives the same text.
+func stableString(v interface{}) string {
+	var sb strings.Builder
+	writeStable(&sb, reflect.ValueOf(v), 0)
+	return sb.String()
+}
+
+func writeStable(sb *strings.Builder, v reflect.Value, depth int) {
+	if !v.IsValid() {
+		sb.WriteString("<nil>")
+		return
+	}
+	if depth > 16 {
+		sb.WriteString("...")
+		return
+	}
+	if (v.Kind() == reflect.Ptr || v.Kind() == reflect.Interface) && v.IsNil() {
+		sb.WriteString("<nil>")
+		return
+	}
+	// Values that know how to print themselves do so, as with %v
+	if v.CanInterface() {
+		switch x := v.Interface().(type) {
+		case error:
+			sb.WriteString(x.Error())
+			return
+		case fmt.Stringer:
+			sb.WriteString(x.String())
+			return
+		}
+	}
+	switch v.Kind() {
+	case reflect.Ptr, reflect.Interface:
+		writeStable(sb, v.Elem(), depth+1)
+	case reflect.Struct:
+		sb.WriteByte('{')
+		for i := 0; i < v.NumField(); i++ {
+			if i > 0 {
+				sb.WriteByte(' ')
+			}
+			writeStable(sb, v.Field(i), depth+1)
+		}
+		sb.WriteByte('}')
+	case reflect.Slice, reflect.Array:
+		sb.WriteByte('[')
+		for i := 0; i < v.Len(); i++ {
+			if i > 0 {
+				sb.WriteByte(' ')
+			}
+			writeStable(sb, v.Index(i), depth+1)
+		}
+		sb.WriteByte(']')
+	case reflect.Map:
+		sb.WriteString("map[")
+		for i, key := range sortedMapKeys(v) {
+			if i > 0 {
+				sb.WriteByte(' ')
+			}
+			writeStable(sb, key, depth+1)
+			sb.WriteByte(':')
+			writeStable(sb, v.MapIndex(key), depth+1)
+		}
+		sb.WriteByte(']')
+	case reflect.Func, reflect.Chan, reflect.UnsafePointer:
+		sb.WriteString(v.Type().String())
+	default:
+		if v.CanInterface() {
+			fmt.Fprintf(sb, "%v", v.Interface())
+		} else {
+			fmt.Fprintf(sb, "%v", v)
+		}
+	}
 }
